@@ -44,7 +44,7 @@ def run_parallel(scs, wd, tag, workers=8):
 
 
 def dconsts(N, T, mf=1, **o):
-    d = dict(N=N, T=T, MaxFaults=mf, VerifyShare=True, CheckVVecLen=True, CommitNeedsAll=True, ThresholdMode="gtHalf")
+    d = dict(N=N, T=T, MaxFaults=mf, VerifyShare=True, CheckVVecLen=True, CommitNeedsAll=True, ConfirmAll=True, ThresholdMode="gtHalf")
     d.update(o)
     return d
 
@@ -61,7 +61,7 @@ def model_phase(prop, tier, wd, info):
         info["states"] += r.distinct
         info["transitions"] += r.generated
     info["model_runs"].append(dict(module="Dkg", nts=nts, invariants=DINV, MaxFaults=1 if tier == "quick" else 2))
-    muts = {"C12": [dict(ThresholdMode="geHalf", _nt=(4, 2)), dict(ThresholdMode="any", _nt=(3, 1))],
+    muts = {"C12": [dict(ThresholdMode="geHalf", _nt=(4, 2)), dict(ThresholdMode="any", _nt=(3, 1)), dict(ConfirmAll=False, _nt=(3, 2))],
             "C13": [dict(VerifyShare=False, _nt=(3, 2)), dict(CheckVVecLen=False, _nt=(3, 2))]}.get(prop, [])
     for m in muts:
         n, t = m.pop("_nt")
@@ -160,6 +160,18 @@ def run_c12(tier, seed, wd, info, verdict):
                       faults=[dict(site="commit", to=to, kind=kind)])
             scs.append(sc)
             meta[sid] = sc
+    # a FAULTY participant (Dkg.tla: byz): its confirmation signature - and everything it signs afterwards - is made with a key
+    # that is not its share.  Every list position, several (n, t): success may not be reported (if it is, the probe finds that
+    # subsets containing that participant do not combine).
+    for n, t in ((3, 2), (4, 3), (5, 3)) if tier == "quick" else ((3, 2), (4, 3), (5, 3), (5, 4), (6, 4), (7, 4), (7, 5)):
+        for to in range(1, n + 1):
+            for init in ((1, n) if tier == "quick" else range(1, n + 1)):
+                k += 1
+                sid = "C12-%d" % k
+                sc = dict(id=sid, ids=list(range(1, n + 1)), n=n, t=t, initiator=init, account="DW/g%d" % k, generate=True, probe=True,
+                          faults=[dict(site="commit", to=to, kind="byzsig")])
+                scs.append(sc)
+                meta[sid] = sc
     by = run_parallel(scs, wd, "c12")
     lines, index = [], []
     nok = 0
@@ -413,6 +425,14 @@ def run_c16(tier, seed, wd, info, verdict):
         verdict.violation("%s:%s" % (violated, extra[1][:120]), "generation %s: rejected by DkgTrace invariant %s %s" % (sid, violated, extra[1]),
                           dict(scenario=sc, trace=seg[:60], invariant=violated, module="DkgTrace"))
     res["contribution_replies_checked"] = npairs
+    # (c) the same boundary over the REAL transport: every key-generation method x every kind of caller credential (no certificate,
+    #     foreign / self-signed / expired certificates, genuine client certificates, genuine certificates followed by an unverified
+    #     one that names a peer) x every server certificate set-up; only a caller whose VERIFIED name is a peer's may get anything
+    import apifamily
+    m = apifamily.matrix_phase("C16", tier, wd, verdict, select=lambda c: c["method"].startswith("DKG."), min_served=4, min_refused=20)
+    info["states"] += m["states"]
+    info["transitions"] += m["transitions"]
+    res["over_real_tls"] = dict(cells=m["cells"], obtained_data=m["served"], refused_at_transport=m["refused"], server_setups=m["modes"])
     return res
 
 
@@ -583,6 +603,9 @@ def run(prop, tier, seed):
 
 def replay(prop, path):
     obj = json.load(open(path))["replay"]
+    if obj.get("api"):
+        import apifamily
+        return apifamily.replay(prop, path)
     wd = workdir(prop + "-replay")
     try:
         sc = obj["scenario"]
